@@ -375,19 +375,24 @@ use vstd::std_specs::hash::*;"""
         assert(m1 == m0.insert(k, m1[k]));  // @%(p)s.actor.%(v)s.exactly_one_more_under_this_key_all_other_keys_unchanged
     }
 }""" % dict(l=local, p=prop, v=variant)))
+            # BOTH summary maps of the actor are handed to each arm (an arm that touches the other map is then decided, not UNDECIDED):
+            # the other one must come back unchanged
+            other = "proxy_summary" if local == "failed_authenticate_summary" else "failed_authenticate_summary"
             u.slice_fn(asw, FN, name, lo, hi,
-                       "%s: &mut HashMap<String, ProxyConnectionSummary>, summary: ProxySummary, response: oneshot::Sender<()>" % local, hints=hints,
+                       "%s: &mut HashMap<String, ProxyConnectionSummary>, %s: &mut HashMap<String, ProxyConnectionSummary>, summary: ProxySummary, response: oneshot::Sender<()>" % (local, other), hints=hints,
                        pre_body="broadcast use vstd::std_specs::hash::group_hash_axioms, group_str_key, axiom_string_ext, axiom_same_key_updated;\nlet ghost m0 = %s@;\n" % local,
                        what="(actor arm AgentStatusAction::%s)" % variant,
                        contract="""
         requires
             obeys_key_model::<String>(),
             forall|j: String| #[trigger] old(%(l)s)@.contains_key(j) ==> old(%(l)s)@[j].count < u64::MAX,   // ASSUMED: no u64 wrap within a day (the map is cleared daily)
+            forall|j: String| #[trigger] old(%(o)s)@.contains_key(j) ==> old(%(o)s)@[j].count < u64::MAX,
         ensures
             one_more(old(%(l)s)@, final(%(l)s)@, str_key(summary_key(summary))),  // @%(p)s.actor.%(v)s.exactly_one_more_under_this_key_all_other_keys_unchanged
             !old(%(l)s)@.contains_key(str_key(summary_key(summary))) ==> entry_names_caller(final(%(l)s)@[str_key(summary_key(summary))], summary),  // @%(p)s.actor.%(v)s.new_entry_names_the_caller
             forall|j: String| #[trigger] final(%(l)s)@.contains_key(j) ==> final(%(l)s)@[j].count <= u64::MAX,
-""" % dict(l=local, p=prop, v=variant))
+            final(%(o)s)@ == old(%(o)s)@,  // @%(p)s.actor.%(v)s.the_other_summary_is_untouched
+""" % dict(l=local, p=prop, v=variant, o=other))
 
 
 def build_key_keeper_actor(u, kkw):
@@ -420,6 +425,13 @@ use tokio::sync::{mpsc, oneshot, Notify};"""
             if v in KK_NOT_SLICED:
                 continue
             name, params, rty, pre, tail, contract = KK_ARMS[v]
+            # every OTHER local of the actor is handed to the arm read-only, so that an arm that replies / stores the value of
+            # another slot is decided by its contract (a plain compile error would only be UNDECIDED)
+            kk_locals = [("key", "Option<Key>"), ("current_secure_channel_state", "String")] + \
+                        [("%s_rule_id" % l, "String") for (l, _v) in ENDPOINTS] + [("%s_rules" % l, OPT_RULES) for (l, _v) in ENDPOINTS]
+            named = set(re.findall(r"(\w+?)(?:_0)?\s*:", params))
+            extras = ", ".join("%s: &%s" % (n, t) for (n, t) in kk_locals if n not in named)
+            params = params + (", " + extras if extras else "")
             lo, hi = arm_block(kkw, arm, FN + " " + v)
             # rustc checks the frame: the slice only compiles if the arm uses no actor local other than the one passed in
             u.slice_fn(kkw, FN, name, lo, hi, params, ret_type=rty, contract=contract,
